@@ -72,7 +72,7 @@ func c04Features(c *val.Case, rep *val.Report, hot []gen.PathInfo) (nt bool, lab
 }
 
 func TestC04(t *testing.T) {
-	col := stats.New("C04", "single- and multi-rule sets whose action lists are sequences of 1-6 assignments over (addressing form x destination kind x source kind x operator x backend): struct fields of every numeric width, nested pointer / value struct / interface, slice elements, map entries (values of exactly the element type), pointer-to-number fields, JSON members/elements/selectors, top-level variables; =, +=, -=, *=, /=; int->float and float->int sources; later actions read what earlier ones wrote. After every firing the complete fact data (every field of both Go facts, the whole JSON document, every data-context entry) is compared with the reference interpreter's replay of the action list on a deep copy of the pre-state: typed locations by kind and value, JSON members and top-level variables by numeric value. Non-trivial: a fired rule has >= 2 assignments and at least one of {numeric kind conversion, non-struct destination, compound operator, read-after-write}. Distinct by rule text + state.",
+	col := stats.New("C04", "single- and multi-rule sets whose action lists are sequences of 1-6 assignments over (addressing form x destination kind x source kind x operator x backend): struct fields of every numeric width, nested pointer / value struct / interface, slice elements, map entries (values of exactly the element type), pointer-to-number fields, JSON members/elements/selectors, top-level variables; =, +=, -=, *=, /=; int->float and float->int sources; later actions read what earlier ones wrote. After every firing the complete fact data (every field of both Go facts, the whole JSON document, every data-context entry) is compared with the reference interpreter's replay of the action list on a deep copy of the pre-state: typed locations by kind and value, JSON members and top-level variables by numeric value. The Go fact embeds two structs whose fields are partly shadowed by the fact's own fields and partly promoted (F.Base.I64 next to F.I64, F.Mid next to F.Base.Core.Mid, F.Deep). Non-trivial: a fired rule has >= 2 assignments and at least one of {numeric kind conversion, non-struct destination, compound operator, read-after-write}. Distinct by rule text + state.",
 		"values that leave the destination's range, overflow or produce NaN/Inf are outside the property's quantifier: such runs are discarded from the comparison and counted",
 		"a bare pointer-to-number read is only used inside arithmetic (the engine does not define it as an assignable number)")
 	defer col.Flush()
